@@ -16,7 +16,7 @@ Modelling decisions (each is checked by the correspondence run):
 * Go's linked lists are Lean lists (active list in order; inactive list in order of deactivation).
   A node carries the data of its ancestors (`anc`, nearest first) instead of a parent pointer.
 * out-of-range read of `items[b+1]` is the explicit outcome `panic`.
-* follows the repaired code (b48609e, e5723a8, a113cc9, 2069dec): inactive list reset after a forced
+* follows the repaired code (4231007, 79d35ec, d8a082d, 3b432db): inactive list reset after a forced
   break, fallback breakpoints measured by `sumAfter`, deactivation without the penalty width,
   non-positive stretch counts as unstretchable.
 * NaN is not modelled (inputs are finite; no operation of the algorithm produces NaN from finite
